@@ -90,6 +90,15 @@ let lis_opt mode strict vs =
   if n > 150 then direct ()
   else if n > 60 then extracted ()
   else (let d = direct () and e = extracted () in if d <> e then raise Disagree; e)
+(* an upper bound of the LCS length under plain equality: the number of elements the two inputs
+   share as multisets (sum over the values of the smaller count) *)
+let shared_bound (l : int list) (r : int list) =
+  let t : (int, int) Hashtbl.t = Hashtbl.create 4096 in
+  List.iter (fun v -> Hashtbl.replace t v (1 + (try Hashtbl.find t v with Not_found -> 0))) l;
+  List.fold_left (fun n v ->
+    match Hashtbl.find_opt t v with
+    | Some c when c > 0 -> Hashtbl.replace t v (c - 1); n + 1
+    | _ -> n) 0 r
 let lcs_opt eq l r =
   let n = max (List.length l) (List.length r) in
   let direct () = lcs_len_direct eq l r and extracted () = int_of_nat (M.lcs_len_ref eq l r) in
@@ -314,8 +323,12 @@ let rec spec prop inp out =
          else if not (M.subseq_b eq s b) then Some "result is not a subsequence of the second argument"
          else if not (exact_subseq s a || exact_subseq s b) then Some "result elements are taken from neither argument"
          else
-           let opt = lcs_opt eq a b in
-           if List.length s <> opt then Some (Printf.sprintf "length %d, reference optimum %d" (List.length s) opt)
+           (* s IS a common subsequence (checked above): the optimum is at least its length.  Under
+              plain equality it is at most what the inputs share as multisets; when s reaches that
+              bound (constructed large inputs, round 6) the quadratic table is not needed *)
+           let plain = (mode = "e") and k = List.length s in
+           let opt = if plain && max (List.length a) (List.length b) > 100 && shared_bound a b = k then k else lcs_opt eq a b in
+           if k <> opt then Some (Printf.sprintf "length %d, reference optimum %d" k opt)
            else None
        end else begin
          (* a test without the laws of an equivalence: the code works on (xs, ys) = the shorter
